@@ -1,0 +1,627 @@
+//! In-memory transport used only by the external verification harness (`--cfg hotstuff_verif`).
+//!
+//! It provides drop-in replacements for `tokio::net::{TcpListener, TcpStream}` backed by a
+//! thread-local switchboard: one simulated network per OS thread, meant to be driven by a
+//! `current_thread` tokio runtime with a paused clock. The harness installs a `Policy` that sees
+//! every connection attempt and every length-delimited frame and decides delays, drops and cuts.
+//! Nothing in this file is compiled unless the guard is set.
+use std::cell::{Cell, RefCell};
+use std::cmp::Reverse;
+use std::collections::{BinaryHeap, HashMap, VecDeque};
+use std::io;
+use std::net::SocketAddr;
+use std::pin::Pin;
+use std::rc::Rc;
+use std::task::{Context, Poll, Waker};
+use tokio::io::{AsyncRead, AsyncWrite, ReadBuf};
+use tokio::sync::{mpsc, Notify};
+use tokio::time::{Duration, Instant};
+
+pub type NodeId = u32;
+
+/// Description of one frame (or raw chunk) travelling on one direction of a connection.
+#[derive(Clone, Debug)]
+pub struct FrameInfo {
+    /// Connection identifier (unique per simulation).
+    pub conn: u64,
+    /// Node that opened the connection.
+    pub src_node: NodeId,
+    /// Port the connection was opened to.
+    pub dst_port: u16,
+    /// true: opener -> listener; false: listener -> opener (replies, ACKs).
+    pub forward: bool,
+    /// Index of this frame on its half-link.
+    pub seq: u64,
+    /// Node whose task performed the write.
+    pub writer_node: NodeId,
+    /// Virtual instant of the write.
+    pub sent_at: Instant,
+    /// true if the bytes are a raw chunk of an unframed (harness-originated) stream.
+    pub raw: bool,
+}
+
+pub enum FrameDecision {
+    /// Deliver after the given delay (per-half-link FIFO order is always preserved).
+    Deliver(Duration),
+    /// Silently discard the frame (the writer notices nothing).
+    Drop,
+    /// Cut the connection instead of delivering this frame; in-flight frames are lost.
+    Reset,
+    /// Deliver the frame after the delay, then cut the connection.
+    DeliverThenReset(Duration),
+}
+
+pub enum ConnectDecision {
+    Accept(Duration),
+    Refuse,
+}
+
+pub trait Policy {
+    fn connect(&mut self, _src_node: NodeId, _dst_port: u16) -> ConnectDecision {
+        ConnectDecision::Accept(Duration::from_millis(0))
+    }
+    fn opened(&mut self, _conn: u64, _src_node: NodeId, _dst_port: u16) {}
+    fn frame(&mut self, _info: &FrameInfo, _payload: &[u8]) -> FrameDecision {
+        FrameDecision::Deliver(Duration::from_millis(1))
+    }
+    fn delivered(&mut self, _info: &FrameInfo, _payload: &[u8]) {}
+    fn closed(&mut self, _conn: u64) {}
+}
+
+#[derive(Default)]
+struct Pipe {
+    buf: VecDeque<u8>,
+    eof: bool,
+    waker: Option<Waker>,
+}
+
+impl Pipe {
+    fn wake(&mut self) {
+        if let Some(w) = self.waker.take() {
+            w.wake();
+        }
+    }
+}
+
+struct HalfLink {
+    parse: Vec<u8>,
+    seq: u64,
+    last: Option<Instant>,
+    dst: Rc<RefCell<Pipe>>,
+    /// The writing endpoint of this half was dropped.
+    writer_gone: bool,
+}
+
+struct Conn {
+    src_node: NodeId,
+    dst_port: u16,
+    raw: bool,
+    fwd: HalfLink,
+    bwd: HalfLink,
+    broken: bool,
+}
+
+enum Item {
+    Frame(FrameInfo, Vec<u8>),
+    /// End of stream for the reader of the given direction.
+    Eof { conn: u64, forward: bool },
+    Cut { conn: u64 },
+}
+
+type Key = (Instant, u16, NodeId, bool, u64, u64);
+
+struct Net {
+    listeners: HashMap<u16, mpsc::UnboundedSender<(TcpStream, SocketAddr)>>,
+    conns: HashMap<u64, Conn>,
+    queue: BinaryHeap<Reverse<Key>>,
+    items: HashMap<u64, Item>,
+    next_conn: u64,
+    next_ticket: u64,
+    notify: Rc<Notify>,
+}
+
+impl Net {
+    fn new() -> Self {
+        Self {
+            listeners: HashMap::new(),
+            conns: HashMap::new(),
+            queue: BinaryHeap::new(),
+            items: HashMap::new(),
+            next_conn: 1,
+            next_ticket: 1,
+            notify: Rc::new(Notify::new()),
+        }
+    }
+
+    fn schedule(&mut self, at: Instant, dst_port: u16, src: NodeId, forward: bool, seq: u64, item: Item) {
+        let ticket = self.next_ticket;
+        self.next_ticket += 1;
+        self.queue.push(Reverse((at, dst_port, src, forward, seq, ticket)));
+        self.items.insert(ticket, item);
+        self.notify.notify_one();
+    }
+
+    fn break_conn(&mut self, id: u64) -> bool {
+        if let Some(c) = self.conns.get_mut(&id) {
+            if c.broken {
+                return false;
+            }
+            c.broken = true;
+            for half in [&c.fwd, &c.bwd] {
+                let mut p = half.dst.borrow_mut();
+                p.eof = true;
+                p.wake();
+            }
+            return true;
+        }
+        false
+    }
+}
+
+thread_local! {
+    static NET: RefCell<Net> = RefCell::new(Net::new());
+    static POLICY: RefCell<Option<Box<dyn Policy>>> = RefCell::new(None);
+    static CUR_NODE: Cell<NodeId> = Cell::new(0);
+    static EPOCH: Cell<Option<Instant>> = Cell::new(None);
+}
+
+fn with_policy<R>(default: R, f: impl FnOnce(&mut dyn Policy) -> R) -> R {
+    POLICY.with(|p| match p.try_borrow_mut() {
+        Ok(mut guard) => match guard.as_mut() {
+            Some(policy) => f(policy.as_mut()),
+            None => default,
+        },
+        Err(_) => default,
+    })
+}
+
+pub fn install(policy: Box<dyn Policy>) {
+    POLICY.with(|p| *p.borrow_mut() = Some(policy));
+}
+
+pub fn set_current_node(id: NodeId) {
+    CUR_NODE.with(|c| c.set(id));
+}
+
+pub fn current_node() -> NodeId {
+    CUR_NODE.with(|c| c.get())
+}
+
+/// Forget every listener, connection and the policy. Call between simulations.
+pub fn reset() {
+    NET.with(|n| *n.borrow_mut() = Net::new());
+    POLICY.with(|p| *p.borrow_mut() = None);
+    EPOCH.with(|e| e.set(None));
+    set_current_node(0);
+}
+
+/// Cut a connection now (both directions; in-flight frames are lost).
+pub fn cut(conn: u64) {
+    let cut = NET.with(|n| n.borrow_mut().break_conn(conn));
+    if cut {
+        with_policy((), |p| p.closed(conn));
+    }
+}
+
+/// Cut every live connection opened to `port`.
+pub fn cut_port(port: u16) {
+    let ids: Vec<u64> = NET.with(|n| {
+        n.borrow()
+            .conns
+            .iter()
+            .filter(|(_, c)| c.dst_port == port && !c.broken)
+            .map(|(id, _)| *id)
+            .collect()
+    });
+    for id in ids {
+        cut(id);
+    }
+}
+
+/// Cut every live connection matching the predicate on (conn, src_node, dst_port).
+pub fn cut_where(mut pred: impl FnMut(u64, NodeId, u16) -> bool) {
+    let ids: Vec<u64> = NET.with(|n| {
+        n.borrow()
+            .conns
+            .iter()
+            .filter(|(id, c)| !c.broken && pred(**id, c.src_node, c.dst_port))
+            .map(|(id, _)| *id)
+            .collect()
+    });
+    for id in ids {
+        cut(id);
+    }
+}
+
+pub fn is_listening(port: u16) -> bool {
+    NET.with(|n| n.borrow().listeners.contains_key(&port))
+}
+
+/// Delivery pump: the harness spawns this once per simulation.
+pub async fn pump() {
+    let notify = NET.with(|n| n.borrow().notify.clone());
+    loop {
+        let next = NET.with(|n| n.borrow().queue.peek().map(|Reverse(k)| k.0));
+        match next {
+            None => notify.notified().await,
+            Some(t) => {
+                if t > Instant::now() {
+                    tokio::select! {
+                        _ = tokio::time::sleep_until(t) => {},
+                        _ = notify.notified() => { continue; }
+                    }
+                }
+                loop {
+                    let item = NET.with(|n| {
+                        let mut n = n.borrow_mut();
+                        let due = matches!(n.queue.peek(), Some(Reverse(k)) if k.0 <= Instant::now());
+                        if !due {
+                            return None;
+                        }
+                        let Reverse(k) = n.queue.pop().unwrap();
+                        n.items.remove(&k.5)
+                    });
+                    let item = match item {
+                        Some(x) => x,
+                        None => break,
+                    };
+                    match item {
+                        Item::Frame(info, bytes) => {
+                            let ok = NET.with(|n| {
+                                let n = n.borrow();
+                                match n.conns.get(&info.conn) {
+                                    Some(conn) if !conn.broken => {
+                                        let half = if info.forward { &conn.fwd } else { &conn.bwd };
+                                        let mut p = half.dst.borrow_mut();
+                                        if !info.raw {
+                                            p.buf.extend((bytes.len() as u32).to_be_bytes());
+                                        }
+                                        p.buf.extend(bytes.iter());
+                                        p.wake();
+                                        true
+                                    }
+                                    _ => false,
+                                }
+                            });
+                            if ok {
+                                with_policy((), |p| p.delivered(&info, &bytes));
+                            }
+                        }
+                        Item::Eof { conn, forward } => NET.with(|n| {
+                            let n = n.borrow();
+                            if let Some(c) = n.conns.get(&conn) {
+                                let half = if forward { &c.fwd } else { &c.bwd };
+                                let mut p = half.dst.borrow_mut();
+                                p.eof = true;
+                                p.wake();
+                            }
+                        }),
+                        Item::Cut { conn } => cut(conn),
+                    }
+                }
+            }
+        }
+    }
+}
+
+pub struct TcpListener {
+    port: u16,
+    rx: tokio::sync::Mutex<mpsc::UnboundedReceiver<(TcpStream, SocketAddr)>>,
+}
+
+impl TcpListener {
+    pub async fn bind(addr: &SocketAddr) -> io::Result<Self> {
+        let (tx, rx) = mpsc::unbounded_channel();
+        let port = addr.port();
+        let taken = NET.with(|n| {
+            let mut n = n.borrow_mut();
+            if n.listeners.contains_key(&port) {
+                true
+            } else {
+                n.listeners.insert(port, tx);
+                false
+            }
+        });
+        if taken {
+            return Err(io::Error::new(io::ErrorKind::AddrInUse, "sim: address in use"));
+        }
+        Ok(Self {
+            port,
+            rx: tokio::sync::Mutex::new(rx),
+        })
+    }
+
+    pub async fn accept(&self) -> io::Result<(TcpStream, SocketAddr)> {
+        match self.rx.lock().await.recv().await {
+            Some(x) => Ok(x),
+            None => std::future::pending().await,
+        }
+    }
+}
+
+impl Drop for TcpListener {
+    fn drop(&mut self) {
+        let port = self.port;
+        let _ = NET.try_with(|n| {
+            if let Ok(mut n) = n.try_borrow_mut() {
+                n.listeners.remove(&port);
+            }
+        });
+    }
+}
+
+pub struct TcpStream {
+    conn: u64,
+    client: bool,
+    rx: Rc<RefCell<Pipe>>,
+}
+
+// The streams only ever live on the thread that owns the simulation (current_thread runtime);
+// the `Send` bounds of the generic network code still have to be satisfied.
+unsafe impl Send for TcpStream {}
+unsafe impl Sync for TcpStream {}
+
+impl TcpStream {
+    pub async fn connect(addr: SocketAddr) -> io::Result<Self> {
+        Self::connect_inner(addr, false).await
+    }
+
+    /// Harness-side: a connection whose written bytes are forwarded verbatim, without frame parsing.
+    pub async fn connect_raw(addr: SocketAddr) -> io::Result<Self> {
+        Self::connect_inner(addr, true).await
+    }
+
+    pub fn id(&self) -> u64 {
+        self.conn
+    }
+
+    async fn connect_inner(addr: SocketAddr, raw: bool) -> io::Result<Self> {
+        let src = current_node();
+        let port = addr.port();
+        let decision = with_policy(ConnectDecision::Accept(Duration::from_millis(0)), |p| {
+            p.connect(src, port)
+        });
+        let delay = match decision {
+            ConnectDecision::Accept(d) => d,
+            ConnectDecision::Refuse => {
+                return Err(io::Error::new(io::ErrorKind::ConnectionRefused, "sim: refused"))
+            }
+        };
+        if delay > Duration::from_millis(0) {
+            tokio::time::sleep(delay).await;
+        }
+        let res = NET.with(|n| {
+            let mut n = n.borrow_mut();
+            let tx = match n.listeners.get(&port).cloned() {
+                Some(tx) => tx,
+                None => {
+                    return Err(io::Error::new(io::ErrorKind::ConnectionRefused, "sim: no listener"))
+                }
+            };
+            let id = n.next_conn;
+            n.next_conn += 1;
+            let c2s = Rc::new(RefCell::new(Pipe::default()));
+            let s2c = Rc::new(RefCell::new(Pipe::default()));
+            let half = |dst: &Rc<RefCell<Pipe>>| HalfLink {
+                parse: Vec::new(),
+                seq: 0,
+                last: None,
+                dst: dst.clone(),
+                writer_gone: false,
+            };
+            n.conns.insert(
+                id,
+                Conn {
+                    src_node: src,
+                    dst_port: port,
+                    raw,
+                    fwd: half(&c2s),
+                    bwd: half(&s2c),
+                    broken: false,
+                },
+            );
+            let server = TcpStream {
+                conn: id,
+                client: false,
+                rx: c2s,
+            };
+            let peer: SocketAddr = format!("127.0.0.1:{}", 40000 + (id % 20000)).parse().unwrap();
+            if tx.send((server, peer)).is_err() {
+                return Err(io::Error::new(io::ErrorKind::ConnectionRefused, "sim: listener gone"));
+            }
+            Ok(TcpStream {
+                conn: id,
+                client: true,
+                rx: s2c,
+            })
+        });
+        if let Ok(s) = &res {
+            let id = s.conn;
+            with_policy((), |p| p.opened(id, src, port));
+        }
+        res
+    }
+}
+
+impl Drop for TcpStream {
+    fn drop(&mut self) {
+        // Graceful close of this endpoint: what it already wrote is still delivered, then the peer
+        // reads EOF; the peer's later writes fail.
+        let id = self.conn;
+        let forward = self.client;
+        let _ = NET.try_with(|n| {
+            if let Ok(mut n) = n.try_borrow_mut() {
+                let now = Instant::now();
+                let mut sched = None;
+                if let Some(c) = n.conns.get_mut(&id) {
+                    if !c.broken {
+                        let (src, port) = (c.src_node, c.dst_port);
+                        let half = if forward { &mut c.fwd } else { &mut c.bwd };
+                        if !half.writer_gone {
+                            half.writer_gone = true;
+                            let at = match half.last {
+                                Some(l) if l > now => l,
+                                _ => now,
+                            };
+                            sched = Some((at, port, src, half.seq));
+                        }
+                        let other = if forward { &mut c.bwd } else { &mut c.fwd };
+                        other.writer_gone = true;
+                    }
+                }
+                if let Some((at, port, src, seq)) = sched {
+                    n.schedule(at, port, src, forward, seq, Item::Eof { conn: id, forward });
+                }
+            }
+        });
+    }
+}
+
+impl AsyncRead for TcpStream {
+    fn poll_read(self: Pin<&mut Self>, cx: &mut Context<'_>, buf: &mut ReadBuf<'_>) -> Poll<io::Result<()>> {
+        let mut p = self.rx.borrow_mut();
+        if !p.buf.is_empty() {
+            let n = std::cmp::min(buf.remaining(), p.buf.len());
+            let chunk: Vec<u8> = p.buf.drain(..n).collect();
+            buf.put_slice(&chunk);
+            return Poll::Ready(Ok(()));
+        }
+        if p.eof {
+            return Poll::Ready(Ok(()));
+        }
+        p.waker = Some(cx.waker().clone());
+        Poll::Pending
+    }
+}
+
+impl AsyncWrite for TcpStream {
+    fn poll_write(self: Pin<&mut Self>, _cx: &mut Context<'_>, data: &[u8]) -> Poll<io::Result<usize>> {
+        let id = self.conn;
+        let forward = self.client;
+        let writer_node = current_node();
+        let now = Instant::now();
+
+        // Split the written bytes into frames (or one raw chunk).
+        let frames: io::Result<Vec<(FrameInfo, Vec<u8>)>> = NET.with(|n| {
+            let mut n = n.borrow_mut();
+            let conn = match n.conns.get_mut(&id) {
+                Some(c) => c,
+                None => return Err(io::Error::new(io::ErrorKind::BrokenPipe, "sim: gone")),
+            };
+            if conn.broken {
+                return Err(io::Error::new(io::ErrorKind::BrokenPipe, "sim: broken"));
+            }
+            let (src_node, dst_port, raw) = (conn.src_node, conn.dst_port, conn.raw && forward);
+            let half = if forward { &mut conn.fwd } else { &mut conn.bwd };
+            if half.writer_gone {
+                return Err(io::Error::new(io::ErrorKind::BrokenPipe, "sim: peer closed"));
+            }
+            let mut out = Vec::new();
+            let mut info = |seq: u64| FrameInfo {
+                conn: id,
+                src_node,
+                dst_port,
+                forward,
+                seq,
+                writer_node,
+                sent_at: now,
+                raw,
+            };
+            if raw {
+                out.push((info(half.seq), data.to_vec()));
+                half.seq += 1;
+                return Ok(out);
+            }
+            half.parse.extend_from_slice(data);
+            loop {
+                if half.parse.len() < 4 {
+                    break;
+                }
+                let len = u32::from_be_bytes([half.parse[0], half.parse[1], half.parse[2], half.parse[3]]) as usize;
+                if half.parse.len() < 4 + len {
+                    break;
+                }
+                let payload: Vec<u8> = half.parse[4..4 + len].to_vec();
+                half.parse.drain(..4 + len);
+                out.push((info(half.seq), payload));
+                half.seq += 1;
+            }
+            Ok(out)
+        });
+        let frames = match frames {
+            Ok(f) => f,
+            Err(e) => return Poll::Ready(Err(e)),
+        };
+
+        for (info, payload) in frames {
+            let decision = with_policy(FrameDecision::Deliver(Duration::from_millis(1)), |p| {
+                p.frame(&info, &payload)
+            });
+            let (delay, then_cut) = match decision {
+                FrameDecision::Deliver(d) => (d, false),
+                FrameDecision::DeliverThenReset(d) => (d, true),
+                FrameDecision::Drop => continue,
+                FrameDecision::Reset => {
+                    cut(id);
+                    break;
+                }
+            };
+            NET.with(|n| {
+                let mut n = n.borrow_mut();
+                let at = match n.conns.get_mut(&id) {
+                    Some(conn) => {
+                        let half = if forward { &mut conn.fwd } else { &mut conn.bwd };
+                        let mut t = now + delay;
+                        if let Some(l) = half.last {
+                            if l > t {
+                                t = l;
+                            }
+                        }
+                        half.last = Some(t);
+                        t
+                    }
+                    None => return,
+                };
+                let (port, src, seq) = (info.dst_port, info.src_node, info.seq);
+                n.schedule(at, port, src, forward, seq, Item::Frame(info, payload));
+                if then_cut {
+                    n.schedule(at, port, src, forward, seq + 1, Item::Cut { conn: id });
+                }
+            });
+        }
+        Poll::Ready(Ok(data.len()))
+    }
+
+    fn poll_flush(self: Pin<&mut Self>, _cx: &mut Context<'_>) -> Poll<io::Result<()>> {
+        Poll::Ready(Ok(()))
+    }
+
+    fn poll_shutdown(self: Pin<&mut Self>, _cx: &mut Context<'_>) -> Poll<io::Result<()>> {
+        Poll::Ready(Ok(()))
+    }
+}
+
+/// Virtual wall clock (replacement for `std::time::{SystemTime, UNIX_EPOCH}` in the sync retry
+/// paths): derived from tokio's clock so that it advances with virtual time.
+#[derive(Clone, Copy)]
+pub struct SystemTime(Duration);
+
+pub const UNIX_EPOCH: SystemTime = SystemTime(Duration::from_secs(0));
+
+impl SystemTime {
+    pub fn now() -> Self {
+        let now = Instant::now();
+        let origin = EPOCH.with(|e| match e.get() {
+            Some(o) => o,
+            None => {
+                e.set(Some(now));
+                now
+            }
+        });
+        SystemTime(Duration::from_secs(1_600_000_000) + now.saturating_duration_since(origin))
+    }
+
+    pub fn duration_since(&self, earlier: SystemTime) -> Result<Duration, std::time::SystemTimeError> {
+        Ok(self.0.saturating_sub(earlier.0))
+    }
+}
